@@ -296,6 +296,7 @@ package server
 //@   property C32
 //@   option nosafety
 //@   option stable req
+//@   loop 0 invariant batchReq != nil && batchReq.StoreId == req.GetStoreId() && batchReq.AuthorizationModelId == authorizationModelID
 //@   monitor items
 //@     ghost lastReq *openfgav1.CheckRequest = nil
 //@     ghost lastErr error = nil
@@ -307,6 +308,7 @@ package server
 //@     after call server.resolveEvalFields returning a, b, c, d : resolved = true ; rSub = a ; rRes = b ; rAct = c ; rCtx = d
 //@     before call server.buildCheckRequest args st, m, sub, rs, act, c : assert st == req.GetStoreId() && m == authorizationModelID && resolved && sub == rSub && rs == rRes && act == rAct && c == rCtx
 //@     after call server.buildCheckRequest returning r, e : lastReq = r ; lastErr = e
+//@     before call (*server.Server).BatchCheck args _, _, br : assert br != nil && br.StoreId == req.GetStoreId() && br.AuthorizationModelId == authorizationModelID
 //@     before call builtin.append args sl, add : assert lastErr == nil && len(add) == 1 && add[0] != nil && add[0].TupleKey == lastReq.GetTupleKey() && add[0].Context == lastReq.GetContext() && add[0].CorrelationId == itoa(i)
 
 // per-item defaults: an item's own subject / resource / action / context wins, otherwise the request-level one
